@@ -64,6 +64,16 @@ var c19ErrBad error = c19BadErr{}
 var c19ErrNilRT error = (*util.RuntimeError)(nil)
 var c19ErrNilRTD error = (*util.RuntimeErrorWithDetail)(nil)
 var c19ErrRT error = &util.RuntimeError{Source: "c19", Type: util.ErrRuntimeError, Detail: "a proper runtime error"}
+var c19ErrRTDEmpty error = &util.RuntimeErrorWithDetail{}                                                        // non-nil, embedded pointer nil
+var c19ErrRTNoType error = &util.RuntimeError{Source: "c19", Detail: "no type"}                                  // Type == nil
+var c19ErrRTDNoType error = &util.RuntimeErrorWithDetail{RuntimeError: &util.RuntimeError{Source: "c19"}}        // Type == nil
+var c19ErrPtr = &c19PtrErr{"a concrete error type"}
+
+// an interface derived from error
+type c19CodedErr interface {
+	error
+	Code() int
+}
 
 // c19ErrToken: the canonical token of one of the harness's error values ("" = not one of them)
 func c19ErrToken(e error) string {
@@ -78,6 +88,14 @@ func c19ErrToken(e error) string {
 		return "er"
 	case e == c19ErrNilRT, e == c19ErrNilRTD:
 		return "ez"
+	case e == c19ErrRTDEmpty:
+		return "ezd"
+	case e == c19ErrRTNoType:
+		return "et"
+	case e == c19ErrRTDNoType:
+		return "etd"
+	case e == error(c19ErrPtr):
+		return "ep"
 	}
 	return ""
 }
@@ -91,6 +109,13 @@ type c19Fn struct {
 	name string
 	fn   interface{} // a Go function (or, for the notfunc cases, something else)
 	body string      // what the model is told about the body
+}
+
+// c19NumericValues: one value of every Go numeric kind (the model's IntKind.all + float32 + float64) and of
+// defined numeric types — returned through interface{} by generated synthetic and plugin functions.
+func c19NumericValues() []interface{} {
+	return []interface{}{int(5), int8(-5), int16(-300), int32(70000), int64(-1 << 40), uint(6), uint8(200), uint16(60000),
+		uint32(4000000000), uint64(1 << 53), uintptr(7), float32(1.5), float64(2.5), time.Duration(5), c19U8(9), c19F32(0.5)}
 }
 
 func c19Synthetic() []c19Fn {
@@ -176,6 +201,14 @@ func c19Synthetic() []c19Fn {
 		{"r_err_nilrt", func() error { c19rec(); var e *util.RuntimeError; return e }, "k:ez"},
 		{"r_err_nilrtd", func() (int, error) { c19rec(); var e *util.RuntimeErrorWithDetail; return 1, e }, "k:i:int:1|ez"},
 		{"r_err_rt", func() error { c19rec(); return c19ErrRT }, "k:er"},
+		{"r_err_rtd_empty", func() error { c19rec(); return c19ErrRTDEmpty }, "k:ezd"},
+		{"r_err_rt_notype", func() error { c19rec(); return c19ErrRTNoType }, "k:et"},
+		{"r_err_rtd_notype", func() (int, error) { c19rec(); return 1, c19ErrRTDNoType }, "k:i:int:1|etd"},
+		// a last result of a concrete / derived error type is NOT the trailing error: it is an ordinary result
+		{"r_int_ptrerr_nil", func() (int, *c19PtrErr) { c19rec(); return 1, nil }, "k:i:int:1|en"},
+		{"r_int_ptrerr", func() (int, *c19PtrErr) { c19rec(); return 1, c19ErrPtr }, "k:i:int:1|ep"},
+		{"r_int_codederr_nil", func() (int, c19CodedErr) { c19rec(); return 1, nil }, "k:i:int:1|z"},
+		{"r_ptrerr_only", func() *c19PtrErr { c19rec(); return nil }, "k:en"},
 		{"r_int_err_typednil", func(x int) (int, error) { c19rec(x); return x, c19ErrTypedNil }, "echo+en"},
 		{"r_int_err_nil", func(x int) (int, error) { c19rec(x); return x, nil }, "echo+z"},
 		{"r_int_err", func(x int) (int, error) { c19rec(x); return x, c19Err }, "echo+e"},
@@ -186,6 +219,9 @@ func c19Synthetic() []c19Fn {
 		{"x_panic_str", func() int { c19rec(); panic("boom") }, "panic"},
 		{"x_panic_err", func(x float64) float64 { c19rec(x); panic(fmt.Errorf("boom %v", x)) }, "panic"},
 		{"x_panic_nil", func() { c19rec(); panic(nil) }, "panic"},
+		// panic VALUES the deferred function must survive: a typed nil error, an error whose Error() panics
+		{"x_panic_typednil", func() int { c19rec(); panic(c19ErrTypedNil) }, "panic"},
+		{"x_panic_baderr", func(x float64) float64 { c19rec(x); panic(c19BadErr{}) }, "panic"},
 		{"x_index", func(a int) int { c19rec(a); return nilSlice[a] }, "panic"},
 		{"x_nilmap", func() { c19rec(); nilMap["a"] = 1 }, "panic"},
 		{"x_nilderef", func(s string) int { c19rec(s); var p *int; return *p }, "panic"},
@@ -206,6 +242,7 @@ func c19Synthetic() []c19Fn {
 		{"d_f32", func() c19F32 { c19rec(); return 1.5 }, "k:" + c19Canon(c19F32(1.5), 0)},
 		{"d_name", func() c19Name { c19rec(); return "a" }, "k:" + c19Canon(c19Name("a"), 0)},
 		{"d_flag", func() (c19Flag, error) { c19rec(); return true, nil }, "k:" + c19Canon(c19Flag(true), 0) + "|z"},
+		// (interface{} results of every numeric kind: see c19NumericValues, appended in c19Setup)
 		// not a function at all
 		{"n_int", 5, "notfunc"},
 		{"n_nil", nil, "notfunc"},
@@ -266,6 +303,9 @@ func c19Plugins() []*c19PluginFn {
 		{"lenint", "plenint", func(a []interface{}) (interface{}, error) { c19rec(a...); return len(a), nil }},
 		{"errtypednil", "k:z|en", func(a []interface{}) (interface{}, error) { c19rec(a...); return nil, c19ErrTypedNil }},
 		{"panicnil", "panic", func(a []interface{}) (interface{}, error) { c19rec(a...); panic(nil) }},
+		{"panictypednil", "panic", func(a []interface{}) (interface{}, error) { c19rec(a...); panic(c19ErrTypedNil) }},
+		{"panicbaderr", "panic", func(a []interface{}) (interface{}, error) { c19rec(a...); panic(c19BadErr{}) }},
+		{"errnotype", "k:z|et", func(a []interface{}) (interface{}, error) { c19rec(a...); return nil, c19ErrRTNoType }},
 		{"panic", "panic", func(a []interface{}) (interface{}, error) { c19rec(a...); panic("boom") }},
 		{"panicerr", "panic", func(a []interface{}) (interface{}, error) { c19rec(a...); panic(c19Err) }},
 		{"nilmap", "panic", func(a []interface{}) (interface{}, error) { c19rec(a...); nilMap["a"] = 1; return nil, nil }},
@@ -280,6 +320,11 @@ func c19Plugins() []*c19PluginFn {
 // c19RegisterPlugins drives the real registration code and returns the targets.
 func c19RegisterPlugins() []*c19Target {
 	fns := c19Plugins()
+	for i, v := range c19NumericValues() {
+		v := v
+		fns = append(fns, &c19PluginFn{fmt.Sprintf("kind%d", i), "k:" + c19Canon(v, 0) + "|z",
+			func(a []interface{}) (interface{}, error) { c19rec(a...); return v, nil }})
+	}
 	lk := c19Lookup{}
 	for _, f := range fns {
 		lk["Sym"+f.name] = f
@@ -365,6 +410,29 @@ func c19BuildUniverse() {
 		"-129", "-0.5", "", "", "13835058055282163712",
 		"40000", "2147483647", "65536", "4294967296", "18446744073709551616", "-2147483649", "-9223372036854775808",
 		"0.1", "16777217", "", "", "", "", ""}
+	// lo, hi, lo-1, hi+1 of every integer kind (the model's IntKind.lo / hi), where exactly a float64
+	have := map[float64]bool{}
+	for _, v := range vals {
+		if f, ok := v.(float64); ok {
+			have[f] = true
+		}
+	}
+	for _, bits := range []uint{8, 16, 32, 64} {
+		one := big.NewInt(1)
+		sLo := new(big.Int).Neg(new(big.Int).Lsh(one, bits-1))
+		sHi := new(big.Int).Sub(new(big.Int).Lsh(one, bits-1), one)
+		uHi := new(big.Int).Sub(new(big.Int).Lsh(one, bits), one)
+		for _, b := range []*big.Int{sLo, sHi, new(big.Int).Sub(sLo, one), new(big.Int).Add(sHi, one),
+			big.NewInt(0), big.NewInt(-1), uHi, new(big.Int).Add(uHi, one)} {
+			f, _ := new(big.Float).SetInt(b).Float64()
+			if back, acc := new(big.Float).SetFloat64(f).Int(nil); acc != big.Exact || back.Cmp(b) != 0 || have[f] {
+				continue // not exactly a float64 (2^63-1 …) or already there
+			}
+			have[f] = true
+			vals = append(vals, f)
+			lits = append(lits, b.String())
+		}
+	}
 	if len(lits) != len(vals) {
 		panic("C19 universe: literals and values out of step")
 	}
@@ -623,7 +691,14 @@ var c19ByName = map[string]*c19Target{}
 func c19Setup() {
 	c19BuildUniverse()
 	stdlib.AddStdlibPkg("c19", "C19 synthetic bridged functions")
-	for _, f := range c19Synthetic() {
+	syn := c19Synthetic()
+	for i, v := range c19NumericValues() {
+		v := v
+		syn = append(syn,
+			c19Fn{fmt.Sprintf("z_ifacek%d", i), func() interface{} { c19rec(); return v }, "k:" + c19Canon(v, 0)},
+			c19Fn{fmt.Sprintf("z_iface2k%d", i), func() (string, interface{}, error) { c19rec(); return "a", v, nil }, "k:s:61|" + c19Canon(v, 0) + "|z"})
+	}
+	for _, f := range syn {
 		// ECAL identifiers have no underscore
 		short := strings.ReplaceAll(f.name, "_", "")
 		if _, dup := c19ByName["c19."+short]; dup {
@@ -989,7 +1064,6 @@ func c19Gen(g *Gen) {
 			exhL(t, mode, append(prefix, u), n, lim)
 		}
 	}
-	exh := func(t *c19Target, mode string, prefix []int, n int) { exhL(t, mode, prefix, n, nU) }
 	sample := func(t *c19Target, mode string, n, count int) {
 		for c := 0; c < count; c++ {
 			idx := make([]int, n)
@@ -1025,10 +1099,26 @@ func c19Gen(g *Gen) {
 		}
 	}
 	// all vectors up to length 2 over the whole universe (directly), the longer ones over the core universe
+	// per position: the whole universe where the function has a parameter, the core universe behind its
+	// last parameter (there every value is just "one argument too many")
+	var exhP func(t *c19Target, mode string, prefix []int, n int)
+	exhP = func(t *c19Target, mode string, prefix []int, n int) {
+		if len(prefix) == n {
+			emit(t, mode, append([]int(nil), prefix...))
+			return
+		}
+		lim := c19Core
+		if t.ftype != nil && len(prefix) < t.ftype.NumIn() || t.plugin && len(prefix) == 0 {
+			lim = nU
+		}
+		for u := 0; u < lim; u++ {
+			exhP(t, mode, append(prefix, u), n)
+		}
+	}
 	for n := 0; n <= dExh; n++ { // small cases first
 		for _, t := range c19Targets {
 			if n <= 2 {
-				exh(t, "D", nil, n)
+				exhP(t, "D", nil, n)
 			} else {
 				exhL(t, "D", nil, n, c19Core)
 			}
@@ -1046,6 +1136,11 @@ func c19Gen(g *Gen) {
 					sample(t, "T", n, 60)
 					continue
 				}
+			}
+			if n <= 1 && lim == nU {
+				exhP(t, "I", nil, n)
+				exhP(t, "T", nil, n)
+				continue
 			}
 			exhL(t, "I", nil, n, lim)
 			exhL(t, "T", nil, n, lim)
